@@ -10,6 +10,14 @@ Sub-checks
                  idkey   an item whose bucket key is id(<the dict spec of that level>) (the item is a placeholder
                          ['id', path] in the recipe; the number is spliced in once the spec objects exist) - F61
                  num-*   big ints (beyond 2**53), Fractions, Decimals routed to Avg leaves - F62
+  nested       rows {'k': int, 'vals': [ints]} x an enclosing Group whose chain holds an inner Group over row['vals']:
+               Pipe(T['vals'], Group(<inner tree>), <leaf of the enclosing Group>) at top level, below a key level, under
+               two constant keys that share one inner Group object, inside the leaf's own sub-spec, or as the key spec.
+               Constructed class: the inner Group ENDS BY STOP (First() over >= 2 values, Limit(n) over > n values) and
+               the step after it accumulates over >= 2 rows of the enclosing Group.
+               Reference: per row the inner Group is a complete Group of its own (refgroup over row['vals']); the leaf
+               of the enclosing Group is the plain-Python aggregate of those per-row results ("nesting a Group spec
+               object never carries data over"; "accumulation state lives ... for the duration of one evaluation").
   first-under-key   First() below one key level (known finding F15 lives here, by construction)
 
 Oracle: refgroup() - an explicit bucketing loop with insertion-ordered dicts.
@@ -22,23 +30,30 @@ from fractions import Fraction
 from hypothesis import strategies as st
 
 import glom
-from glom import T, Val, SKIP, Sum, Flatten, Merge, GlomError
+from glom import T, Val, SKIP, Sum, Flatten, Merge, GlomError, Pipe
 from glom.grouping import Group, First, Max, Min, Avg, Limit
 from glom.reduction import Count
 
-from ..runner import Sub, Mismatch
+from ..runner import Sub, Mismatch, HarnessBug
 from .. import targets as tg
 
 PROPERTY = 'C16'
 RULE = ('items: 0-8 small ints (negative, zero, positive), in constructed classes also id(<dict spec>), ints beyond 2**53, Fractions, Decimals; '
         'spec trees: 0-3 key levels over {T, T % 2, T % 3, callable, SKIP-producing callable, Val} '
         '(key specs of one level have disjoint key ranges) and the listed leaves; every spec object is evaluated twice and '
-        'also per row / inside another Group. Non-trivial = >= 2 key levels or an aggregator leaf, with >= 2 buckets of >= 2 items.')
+        'also per row / inside another Group. Non-trivial = >= 2 key levels or an aggregator leaf, with >= 2 buckets of >= 2 items. '
+        'nested: 0-5 rows {k, vals: 0-5 small ints} x an inner Group (First / Limit(n[, tree]) / tree of 0-2 key levels) in the chain of an '
+        'enclosing Group (top level / below one key level / shared under two constant keys / inside the leaf / as key spec) x the '
+        'leaves [T], Count, Sum, Max, Min, Avg, Flatten, Merge of the enclosing Group; non-trivial = >= 2 rows reach one accumulator.')
 ASSUMPTIONS = [
     'Avg reference: functools.reduce(operator.add, xs, 0) / len(xs) - exact for ints (true division rounds once), Fractions and Decimals',
     'an item that stands for id(<dict spec>) is known only after the spec is built: its value differs between processes, its position and the dict it names do not',
     'top-level aggregators on empty input, Limit below a key level and two key specs producing the same bucket key are outside the statement and not generated',
     'First/STOP-producing leaves below a key level are generated only in the first-under-key sub-check (known finding F15)',
+    'nested: a Group in the chain of another Group is read as a complete Group of its own over the value it receives (what Group means '
+    'everywhere else); the leaf of the enclosing Group after it aggregates the per-row results like any leaf aggregates items',
+    'nested: the enclosing leaf after the inner Group is never First / Limit: a STOP answered by a step of a Pipe ends that Pipe (documented '
+    'meaning of STOP in a chain) and never reaches the Group - Group(Pipe(T, First())) over [1, 2, 3] gives 3 - so the statement has no say there',
 ]
 
 
@@ -442,6 +457,219 @@ def check(recipe, ctx):
 
 
 # ---------------------------------------------------------------------------
+# a Group nested in the chain of an enclosing Group
+
+def skipk(row):
+    return SKIP if row['k'] == 3 else row['k']
+
+
+def keep(x):
+    return x
+
+
+# key specs of the enclosing Group over a row {'k': int, 'vals': [...]}: name -> (build, reference)
+OKEYS = {
+    'k': (lambda: T['k'], lambda row: row['k']),
+    'kmod2': (lambda: T['k'] % 2, lambda row: row['k'] % 2),
+    'skipk': (lambda: skipk, skipk),
+    'const': (lambda: Val('all'), lambda row: 'all'),
+}
+# leaves of the enclosing Group, by the kind of value the inner Group hands them
+OLEAVES = {'any': ['list', 'list', 'count'], 'num': ['sum', 'sum', 'max', 'min', 'avg'], 'list': ['flatten', 'flatten'],
+           'dict': ['merge', 'merge']}
+OBUILD = {'list': lambda sub: [sub], 'count': lambda sub: Count(), 'sum': Sum, 'max': lambda sub: Max(),
+          'min': lambda sub: Min(), 'avg': lambda sub: Avg(), 'flatten': Flatten, 'merge': Merge}
+INLEAF = ('list', 'sum', 'flatten', 'merge')      # leaves that take a sub-spec: the chain with the inner Group may sit inside them
+
+
+def result_kind(r):
+    """what Group(<tree r>) returns: a number, a list or a dict"""
+    if r[0] == 'limit':
+        return result_kind(r[2]) if r[2] is not None else 'list'
+    if r[0] == 'dict':
+        return 'dict'
+    return 'list' if r[1] in ('list', 'listx2', 'listskip', 'flatten') else 'dict' if r[1] in ('merge', 'aggdict') else 'num'
+
+
+def ends_by_stop(r, n):
+    """does Group(<tree r>) over n items end because its spec answers STOP (and not because the input is used up)?
+    returns None / 'first' / 'limit'"""
+    if r[0] == 'limit':
+        if n > r[1]:
+            return 'limit'
+        return ends_by_stop(r[2], n) if r[2] is not None else None
+    return 'first' if r[0] == 'leaf' and r[1] == 'first' and n >= 2 else None
+
+
+def gen_nested(draw):
+    S = st.sampled_from
+    end = draw(S(['first', 'first', 'limit', 'limit', 'limit-sub', 'limit-sub', 'free', 'free', 'free']))
+    if end == 'first':
+        inner = ['leaf', 'first']
+    elif end == 'limit':
+        inner = ['limit', draw(S([0, 1, 1, 2, 2, 3])), None]
+    elif end == 'limit-sub':
+        inner = ['limit', draw(S([1, 1, 2, 2, 3])), gen_tree(draw, draw(S([0, 0, 1, 2])))]
+    else:
+        inner = gen_tree(draw, draw(S([0, 0, 1, 1, 2])))
+    kind = result_kind(inner)
+    form = draw(S(['top', 'top', 'bucket', 'bucket', 'bucket', 'share'] + (['key'] if kind == 'num' else [])))
+    leaf = draw(S(OLEAVES['any'] + OLEAVES[kind]))
+    if form == 'key':
+        leaf = 'list'
+    pos = 'in-leaf' if form != 'key' and leaf in INLEAF and draw(S(range(4))) == 0 else 'chain'
+    lo = 1 if needs_items(inner) else 0
+    rows = [[draw(S([0, 0, 1, 1, 2, 3])), [draw(S(SMALL)) for _ in range(draw(S([lo, 1, 2, 3, 3, 4, 5])))]]
+            for _ in range(draw(S([0, 1, 2, 3, 3, 4, 4, 5])))]
+    return {'inner': inner, 'form': form, 'okey': draw(S(sorted(OKEYS))), 'leaf': leaf, 'pos': pos, 'mid': draw(S([False, False, True])),
+            'olimit': draw(S([None] * 5 + [1, 2, 3])), 'rows': rows}
+
+
+def build_nested(recipe, inner_group):
+    steps = [T['vals'], inner_group] + ([keep] if recipe['mid'] else [])
+    form, leaf = recipe['form'], recipe['leaf']
+    if form == 'key':
+        spec = {Pipe(*steps): [T['k']]}
+    else:
+        if recipe['pos'] == 'in-leaf':
+            chain = OBUILD[leaf](Pipe(*steps))
+        else:
+            chain = Pipe(*(steps + [OBUILD[leaf](T)]))
+        if form == 'top':
+            spec = chain
+        elif form == 'bucket':
+            spec = {OKEYS[recipe['okey']][0](): chain}
+        elif form == 'share':
+            # the same inner Group object once more, under a second constant key
+            spec = {Val('x'): chain, Val('y'): Pipe(T['vals'], inner_group, [T])}
+        else:
+            raise HarnessBug('nested: form %r' % (form,))
+    return spec if recipe['olimit'] is None else Limit(recipe['olimit'], spec)
+
+
+def refouter(leaf, rs):
+    """the leaf of the enclosing Group over the per-row results routed to it (a hand-written loop per leaf)"""
+    if leaf == 'list':
+        return list(rs)
+    if leaf == 'count':
+        return len(rs)
+    if leaf == 'sum':
+        return functools.reduce(operator.add, rs, 0)        # tot = 0; for r in rs: tot += r
+    if leaf == 'max':
+        return max(rs)
+    if leaf == 'min':
+        return min(rs)
+    if leaf == 'avg':
+        return functools.reduce(operator.add, rs, 0) / len(rs)
+    if leaf == 'flatten':
+        out = []
+        for r in rs:
+            out += r
+        return out
+    if leaf == 'merge':
+        out = {}
+        for r in rs:
+            out.update(r)
+        return out
+    raise HarnessBug('nested: leaf %r' % (leaf,))
+
+
+def nested_groups(recipe, rows):
+    """the rows (as indexes) that reach one and the same accumulator of the enclosing Group, per accumulator"""
+    if recipe['form'] != 'bucket':
+        return [list(range(len(rows)))]
+    groups = {}
+    for i, (k, _) in enumerate(rows):
+        key = OKEYS[recipe['okey']][1]({'k': k})
+        if key is not SKIP:
+            groups.setdefault(key, []).append(i)
+    return list(groups.values())
+
+
+def ref_nested(recipe, rows):
+    inner, form, leaf = recipe['inner'], recipe['form'], recipe['leaf']
+    per_row = [refgroup(inner, list(vals)) for _, vals in rows]        # a complete Group of its own for every row
+    if form == 'top':
+        return refouter(leaf, per_row)
+    if form == 'bucket':
+        out = {}
+        for (k, _), r in zip(rows, per_row):
+            key = OKEYS[recipe['okey']][1]({'k': k})
+            if key is SKIP:
+                continue
+            out.setdefault(key, []).append(r)
+        return dict((key, refouter(leaf, rs)) for key, rs in out.items())
+    if form == 'share':
+        return {'x': refouter(leaf, per_row), 'y': list(per_row)} if rows else {}
+    if form == 'key':
+        out = {}
+        for (k, _), r in zip(rows, per_row):
+            out.setdefault(r, []).append(k)
+        return out
+    raise HarnessBug('nested: form %r' % (form,))
+
+
+def check_nested(recipe, ctx):
+    inner, form, leaf, pos = recipe['inner'], recipe['form'], recipe['leaf'], recipe['pos']
+    kind = result_kind(inner)
+    if leaf not in OLEAVES['any'] + OLEAVES[kind] or (pos == 'in-leaf' and leaf not in INLEAF) or (form == 'key' and kind != 'num') \
+            or (inner[0] == 'limit' and inner[1] == 0 and needs_items(inner)):
+        raise HarnessBug('nested: recipe outside the generated domain: %r' % (recipe,))
+    # aggregators over no items at all are outside the statement (inner: no values; enclosing: no rows)
+    rows = [[k, list(vals) if vals or not needs_items(inner) else [4]] for k, vals in recipe['rows']]
+    olimit = recipe['olimit']
+    if form == 'top' and not (leaf == 'list' and pos == 'in-leaf'):
+        # (a Pipe that ends in [T] is no list spec: what its Group returns for no rows at all is not stated either)
+        rows = rows or [[0, [4, 5]]]
+    seen = rows if olimit is None else rows[:olimit]
+    inner_group = Group(build(inner))
+    spec = Group(build_nested(recipe, inner_group))
+    exp = ref_nested(recipe, seen)
+    # classes
+    stops = [ends_by_stop(inner, len(vals)) for _, vals in seen]
+    groups = nested_groups(recipe, seen)
+    many = [g for g in groups if len(g) >= 2]
+    accumulating = form == 'share' or (form != 'key' and pos == 'chain')      # ('share': the second entry always is Pipe(.., inner, [T]))
+    ctx.label('form-' + form, 'leaf-' + leaf, 'pos-' + pos, 'inner-' + kind)
+    if any(stops):
+        ctx.label('inner-ends-by-stop')
+    if accumulating and many:
+        causes = set(stops[i] for g in many for i in g if stops[i])
+        for c in sorted(causes):
+            ctx.label('stop-by-%s-then-accumulating-step/rows>=2' % c)
+        ctx.label('stop-then-accumulating-step/rows>=2' if causes else 'no-stop-then-accumulating-step/rows>=2')
+        if causes and form == 'bucket':
+            ctx.label('stop-then-accumulating-step-below-key/rows>=2')
+    ctx.nontrivial(bool(many) and form != 'key')
+    target = [{'k': k, 'vals': list(vals)} for k, vals in rows]
+    where = 'glom(%r, %r)' % (target, spec)
+    results = []
+    for rep in range(2):
+        try:
+            got = glom.glom([dict(row, vals=list(row['vals'])) for row in target], spec)
+        except Exception as e:
+            raise Mismatch('nested-unexpected-error', '%s (evaluation #%d): %s: %r' % (where, rep + 1, type(e).__name__, e))
+        if not same_with_order(got, exp):
+            raise Mismatch('nested-wrong-result' if rep == 0 else 'nested-carry-over',
+                           '%s (evaluation #%d of the same spec object): expected %r (per row the inner Group gives %r), got %r'
+                           % (where, rep + 1, exp, [refgroup(inner, v) for _, v in seen], got))
+        results.append(got)
+    if mutable_ids(results[0]) & mutable_ids(results[1]):
+        raise Mismatch('nested-results-share-state', '%s: two evaluations share a mutable object' % where)
+    # the inner Group object evaluated on its own afterwards starts from scratch as well
+    if rows:
+        vals = list(rows[-1][1])
+        try:
+            alone = glom.glom(vals, inner_group)
+        except Exception as e:
+            raise Mismatch('nested-unexpected-error', 'glom(%r, %r) after %s: %s: %r' % (vals, inner_group, where, type(e).__name__, e))
+        if not same_with_order(alone, refgroup(inner, vals)):
+            raise Mismatch('nested-carry-over', 'glom(%r, %r) after %s: expected %r, got %r'
+                           % (vals, inner_group, where, refgroup(inner, vals), alone))
+    ctx.outcome([repr(spec)[:120], repr(exp)[:100]])
+
+
+# ---------------------------------------------------------------------------
 # First below a key level (F15)
 
 def gen_first(draw):
@@ -489,5 +717,9 @@ SUBS = [
         floors={'levels-2': 0.1, 'levels-3': 0.05, 'leaf-agg': 0.3, 'nest-rows': 0.1,
                 'idkey': 0.065, 'idkey-followed': 0.06, 'avg-num-bigint': 0.03, 'avg-num-Fraction': 0.03, 'avg-num-Decimal': 0.03,
                 'avg-needs-exact-sum': 0.06}),
+    Sub('nested', check_nested, gen=gen_nested, quick=1200, thorough=8000,
+        floors={'stop-then-accumulating-step/rows>=2': 0.15, 'stop-by-first-then-accumulating-step/rows>=2': 0.06,
+                'stop-by-limit-then-accumulating-step/rows>=2': 0.08, 'stop-then-accumulating-step-below-key/rows>=2': 0.06,
+                'no-stop-then-accumulating-step/rows>=2': 0.1, 'pos-in-leaf': 0.1, 'form-share': 0.065, 'form-key': 0.012}),
     Sub('first-under-key', check_first, gen=gen_first, quick=600, thorough=2000),
 ]
